@@ -198,8 +198,8 @@ structure Spec where
   labels : List Lbl
   steps : List Nat
 
-/-- the model's view of a database and a target label (`none`: outside the fragment) -/
-def dbOfMDb (mdb : MDb) (target : String) : Option Spec := do
+/-- the model's view of a database WITHOUT `#Notation` statements and a target label (`none`: outside the fragment) -/
+def dbOfCore (mdb : MDb) (target : String) : Option Spec := do
   let nm := namesOf mdb
   let decls ← mdb.mapM (declOf nm)
   let roles ← decls.mapM roleOf
@@ -211,5 +211,72 @@ def dbOfMDb (mdb : MDb) (target : String) : Option Spec := do
   let mand ← (db.mandOf [goal]).mapM (floatLabel roles)
   let labels ← (mand ++ cited).mapM fun l => table.lookup l
   pure ⟨nm, roles, db, table, goal, labels, steps⟩
+
+/-! ## declared notations
+
+`l $a #Notation ( n v₁ … vₖ ) BODY $.` (`l $a #Notation n BODY $.` for `k = 0`) next to the constructor axiom
+`n-is-pattern $a #Pattern ( n v₁ … vₖ ) $.`.  For Metamath the statement is one more axiom, of a typecode no `|-` statement and no
+`#Pattern` statement of the fragment has a hypothesis of: no valid proof of the target can cite it.  So it contributes nothing to the
+numbering, the label table (its label has no `Lbl`: a proof that cites it is outside the fragment) or the rules: the database without
+its `#Notation` statements (`coreOf`) determines all of those (`dbOfCore`).  What it says is what `( n t₁ … tₖ )` DENOTES: the body with
+`tᵢ` for `vᵢ` — `Ctor.body` of the constructor entry of `n`. -/
+
+/-- `l $a #Notation ( n v₁ … vₖ ) BODY`: label, head, arguments, body -/
+def sugarOf : MStmt → Option (String × String × List MTerm × MTerm)
+  | .ax l [.app tc [], .app n args, body] => if tc = "#Notation" then some (l, n, args, body) else none
+  | _ => none
+
+def isSugar (st : MStmt) : Bool := (sugarOf st).isSome
+
+/-- the database without its `#Notation` statements -/
+def coreOf (mdb : MDb) : MDb := mdb.filter fun st => !isSugar st
+
+/-- the `#Notation` statements, in database order -/
+def sugarsOf (mdb : MDb) : List (String × String × List MTerm × MTerm) := mdb.filterMap sugarOf
+
+/-- one `#Notation` statement: its head is a constant with exactly one constructor axiom, stated over the same (pairwise different,
+by `DB.wf`) variables in the same order, without a notation so far; the body is a term of the database.  (Which symbols the body may
+mention — its own variables, earlier notations — is `DB.wf`'s clause `notOk`.) -/
+def attach (nm : Names) (db : DB) (sg : String × String × List MTerm × MTerm) : Option DB := do
+  let c ← nm.con? sg.2.1
+  let vs ← asVars (← termsOf nm sg.2.2.1)
+  let b ← termOf nm sg.2.2.2
+  match db.ctors.filter (·.sym == c) with
+  | [k] =>
+      if k.args = vs ∧ k.body.isNone then
+        some { db with ctors := db.ctors.map fun k' => if k'.sym == c then { k' with body := some b } else k' }
+      else none
+  | _ => none
+
+def attachAll (nm : Names) : DB → List (String × String × List MTerm × MTerm) → Option DB
+  | db, [] => some db
+  | db, sg :: r => do attachAll nm (← attach nm db sg) r
+
+/-- the model's view of a database and a target label (`none`: outside the fragment): `dbOfCore` of the database without its
+`#Notation` statements, with the bodies of the declared notations at their constructors -/
+def dbOfMDb (mdb : MDb) (target : String) : Option Spec := do
+  let sp ← dbOfCore (coreOf mdb) target
+  let db ← attachAll sp.names sp.db (sugarsOf mdb)
+  pure { sp with db := db }
+
+/-- a database without `#Notation` statements -/
+def sugarFree (mdb : MDb) : Bool := mdb.all fun st => !isSugar st
+
+theorem coreOf_of_sugarFree {mdb : MDb} (h : sugarFree mdb = true) : coreOf mdb = mdb := by
+  unfold coreOf
+  exact List.filter_eq_self.mpr (by simpa [sugarFree] using h)
+
+theorem sugarsOf_of_sugarFree {mdb : MDb} (h : sugarFree mdb = true) : sugarsOf mdb = [] := by
+  unfold sugarsOf
+  rw [List.filterMap_eq_nil_iff]
+  intro st hst
+  have := (List.all_eq_true.mp h) st hst
+  simpa [isSugar] using this
+
+/-- on a database without `#Notation` statements the specification is the core specification -/
+theorem dbOfMDb_of_sugarFree {mdb : MDb} (h : sugarFree mdb = true) (target : String) : dbOfMDb mdb target = dbOfCore mdb target := by
+  unfold dbOfMDb
+  rw [coreOf_of_sugarFree h, sugarsOf_of_sugarFree h]
+  cases dbOfCore mdb target <;> rfl
 
 end MM.ConvSpec
